@@ -25,6 +25,9 @@ CHECKS = {
  "C07": ("E2-shape-lattice", "exhaustive enumeration of generalized datasets up to k quads over a finite universe x all blank-node label bijections x statement orders x container pairs, and all single-edit neighbours",
          "For every enumerated dataset the test answers true, in both argument orders and across container types, for every relabelled and reordered copy (blank nodes inside quoted triples and as graph names included), and false for every single-edit neighbour that differs in size, blank node count or bnode-blanked statements.",
          "Small-scope hypothesis (<= 2/3 quads, <= 4 blank nodes); false is only demanded where the property demands it.", "DESIGN.md §4 C07"),
+ "C08": ("E4-word-enumerator", "exhaustive enumeration of bounded input families (all single edits of seed documents, token words, IRI/label/tag/variable strings at every syntactic position, nesting ladders, long tokens, configured bases) x 8 parsers x build profiles (checked, dev, release), every case run in a crash-attributing child process; oracle: returns, and every accessor of every yielded term passes the toolkit's own validators",
+         "For every enumerated input each of the 8 parsers terminates without panic, abort or stack overflow (2 MiB thread for structural inputs) and every term it yields is valid for IriRef/Iri/BnodeId/LanguageTag/VarName (absolute IRIs from strict parsers), in builds with and without debug assertions.",
+         "Validity = the toolkit's own validators; bounded families (edit distance 1 from 30 seed documents, <=4 tokens, <=3 IRI symbols, <=4 label/tag symbols, depth <= 10^6).", "DESIGN.md §4 C08, §9.1"),
  "C09": ("E3-product-automaton", "product of the DFA determinised from the crate's regex source with the DFA of the RFC 3987 ABNF (all strings), witness replay per product edge; bounded exhaustive string and (base, reference) pair enumeration against RFC 3986 5.2",
          "Language equality of the validator with RFC 3987 is decided for strings of every length by exploring all reachable product states; the model is bound to the code by construction (built from the crate's public regex source at run time) and by replaying a witness per product edge through every validating entry point. Base conversion, Namespace::get and resolution are checked exhaustively over all strings up to a length and all pairs of a generated IRI set.",
          "regex-automata determinisation; ABNF transcription (cross-checked against oxiri); RFC 3986 5.2 reference (validated on the 42 examples of 5.4); bounds of the string/pair enumerations.", "DESIGN.md §4 C09"),
